@@ -107,7 +107,7 @@ package dns
 
 // Msg.Len: the compressed length is computed (with a fresh map) exactly when Compress is set and there is something
 // to compress; otherwise the uncompressed one
-//@ func (*Msg).isCompressible [C08]
+//@ func (*Msg).isCompressible [C08 C09]
 //@   requires dns != nil
 //@   ensures ret0 == (len(dns.Question) > 1 || len(dns.Answer) > 0 || len(dns.Ns) > 0 || len(dns.Extra) > 0)
 //@   pure
